@@ -258,6 +258,13 @@ func (u *Unit) execCall(fr *Frame, site ssa.Instruction, c *ssa.CallCommon, st *
 	}
 	// builtins
 	if b, ok := c.Value.(*ssa.Builtin); ok {
+		if b.Name() == "append" || b.Name() == "copy" || b.Name() == "delete" {
+			var bargs []Val
+			for _, a := range c.Args {
+				bargs = append(bargs, u.value(fr, a))
+			}
+			u.callAsserts(fr, "builtin."+b.Name(), bargs, c, st, *reach)
+		}
 		return u.execBuiltin(fr, b, c, st, *reach, resT)
 	}
 	name := u.calleeName(c)
@@ -453,7 +460,7 @@ func (u *Unit) execBuiltin(fr *Frame, b *ssa.Builtin, c *ssa.CallCommon, st *Sta
 			f := "maplen_" + mangle(u.typeKey(t))
 			_, dh, _, _ := u.mapHeaps(st, t)
 			u.declareOnce(f, fmt.Sprintf("(declare-fun %s (%s) Int)", f, arrayElem(dh.Sort)))
-			r := u.def(app("Int", f, sel(dh, args[0].T)))
+			r := u.def(ite(eq(args[0].T, intLit(0)), intLit(0), app("Int", f, sel(dh, args[0].T))))
 			u.assume(tTrue, app("Bool", ">=", r, intLit(0)))
 			u.note("len(map) is an uninterpreted non-negative function of the key set")
 			return Val{T: r, Typ: resT}
@@ -668,7 +675,11 @@ func (u *Unit) applyContract(fr *Frame, ct *Contract, name string, c *ssa.CallCo
 				pn := strings.TrimSpace(f[1:])
 				for i, p := range params {
 					if p == pn && i < len(args) {
-						u.havocPointee(fr, st, args[i], c, i)
+						a := args[i]
+						if a.Boxed != nil {
+							a = *a.Boxed // an interface argument made from a pointer: the pointee changes
+						}
+						u.havocPointee(fr, st, a, c, i)
 					}
 				}
 				continue
@@ -688,6 +699,12 @@ func (u *Unit) applyContract(fr *Frame, ct *Contract, name string, c *ssa.CallCo
 		}
 	}
 	st.ghostCalled["called:"+name] = tTrue
+	if ct.HasFrame {
+		// the callee may allocate: the allocation counter only grows
+		prev := st.alloc
+		st.alloc = u.fresh("alloc", "Int")
+		u.assume(tTrue, app("Bool", ">=", st.alloc, prev))
+	}
 	res := u.freshResult(st, resT, name)
 	env2 := u.contractEnv(ct, params, args, st, old)
 	bindResults(env2, res, resNames)
@@ -754,7 +771,10 @@ func (u *Unit) havocPointee(fr *Frame, st *State, a Val, c *ssa.CallCommon, idx 
 		}
 		v := u.freshVal(st, "out", pt.Elem())
 		u.store(st, l, v)
+		return
 	}
+	// an interface value of unknown origin: anything may be its pointee
+	u.havocHeaps(st, nil, "pointee of an interface argument")
 }
 
 // ensureHeapByName declares a heap that has not been touched yet (so that a frame can mention it).
@@ -813,18 +833,22 @@ func (u *Unit) callAsserts(fr *Frame, name string, args []Val, c *ssa.CallCommon
 		if !strings.Contains(name, ca.Callee) {
 			continue
 		}
-		key := fmt.Sprintf("callassert:%d", k)
-		n := u.ordinals[key]
-		u.ordinals[key] = n + 1
+		callee := ca.Callee
+		n := u.siteIndex(fr.fn, c, func(nm string) bool { return strings.Contains(nm, callee) })
 		if ca.Nth >= 0 && ca.Nth != n {
 			continue
 		}
+		u.ordinals[fmt.Sprintf("callassert:%d", k)]++
 		env := u.loopEnv(fr, st)
 		for i, a := range args {
 			env.vars[fmt.Sprintf("arg%d", i)] = a
 		}
-		f := u.evalBool(ca.Clause.Expr, env)
-		u.oblige("assert@call", reach, f, "assert@call", shortName(ca.Callee), ca.Clause.Src)
+		f := u.evalClause(ca.Clause.Expr, env)
+		detail := shortName(ca.Callee)
+		if ca.Nth >= 0 {
+			detail = fmt.Sprintf("%s#%d", detail, ca.Nth)
+		}
+		u.oblige("assert@call", reach, f, "assert@call", detail, ca.Clause.Src)
 	}
 }
 
